@@ -18,6 +18,29 @@ pub enum Res {
     Many(Vec<(String, String)>),
 }
 
+/// How much of the enumeration a table row takes part in.
+#[derive(Clone, Copy, PartialEq, Eq, Debug)]
+pub enum Level {
+    /// short strings, 1- and 2-deviation mutations, anchored tails, field
+    /// values, blow-ups
+    Full,
+    /// 1-deviation mutations, anchored tails, field values and the small
+    /// blow-ups only (thin wrappers, option combinations and second alphabets
+    /// of a grammar that a `Full` row already enumerates)
+    Light,
+}
+
+/// An anchored tail enumeration: `prefix + t + suffix` for every string `t`
+/// of length <= L over `alpha` (the grammar behind a valid prefix, which the
+/// plain short strings never reach).
+pub struct Anchor {
+    pub prefix: &'static [u8],
+    pub alpha: &'static [u8],
+    pub suffix: &'static [u8],
+    /// tail length bound: (quick, thorough)
+    pub len: (usize, usize),
+}
+
 pub struct Parser {
     pub name: &'static str,
     pub alpha: &'static [u8],
@@ -25,6 +48,13 @@ pub struct Parser {
     /// repeated units for the 10^6-byte inputs: (prefix, unit, suffix)
     pub units: &'static [(&'static [u8], &'static [u8], &'static [u8])],
     pub f: fn(&[u8]) -> Res,
+    pub level: Level,
+    /// length bound of the plain short strings: (quick, thorough)
+    pub short_len: (usize, usize),
+    pub anchors: &'static [Anchor],
+    /// parser calls the row's function makes per input (the allocation bound
+    /// of the blow-ups is per call)
+    pub calls: u64,
 }
 
 static TP: temporal::DateTimeParser = temporal::DateTimeParser::new();
@@ -191,7 +221,7 @@ pub fn chk_zoned(z: &Zoned) -> Option<(String, String)> {
     let cls = format!("{}{}{}", if fold { "[fold]" } else { "" }, if submin { "[subminute-offset]" } else { "" }, f13);
     match text.parse::<Zoned>() {
         Ok(b) => {
-            if b.timestamp().as_nanosecond() != ns || b.offset() != z.offset() || b.time_zone() != tz || b.timestamp() != ts {
+            if b.timestamp().as_nanosecond() != ns || b.offset() != z.offset() || !tz_same(b.time_zone(), tz) || b.timestamp() != ts {
                 bad(format!("ok-value-reparse:Zoned{}", cls), format!("{:?} ({} ns) printed {:?} re-parsed {:?} ({} ns)", z, ns, text, b, b.timestamp().as_nanosecond()))
             } else {
                 None
@@ -375,8 +405,30 @@ fn p_pieces(i: &[u8]) -> Res {
         }
     }
     let _ = p.to_time_zone();
+    let _ = p.to_time_zone_with(bundled_db());
+    let _ = p.to_time_zone_with(&NO_DB);
+    match p.offset() {
+        None => {}
+        Some(temporal::PiecesOffset::Zulu) => {
+            if off != Some(Offset::UTC) {
+                return Res::Bad("ok-value-inconsistent:Pieces".into(), format!("offset() is Zulu but to_numeric_offset() is {:?}", off));
+            }
+        }
+        Some(temporal::PiecesOffset::Numeric(n)) => {
+            if Some(n.offset()) != off || (n.is_negative() && n.offset().seconds() > 0) || (!n.is_negative() && n.offset().seconds() < 0) {
+                return Res::Bad("ok-value-inconsistent:Pieces".into(), format!("offset() {:?} (is_negative {}) vs to_numeric_offset() {:?}", n.offset(), n.is_negative(), off));
+            }
+        }
+        Some(_) => {}
+    }
+    // (`Pieces ==` tells a borrowed annotation name from an owned one, so the
+    // owned copy is only exercised, not compared)
+    let _ = p.clone().into_owned().to_string();
     let mut ann_off = None;
     if let Some(a) = p.time_zone_annotation() {
+        let _ = a.is_critical();
+        let _ = a.to_time_zone_with(bundled_db());
+        let _ = a.to_time_zone_with(&NO_DB);
         if let temporal::TimeZoneAnnotationKind::Offset(o) = a.kind() {
             ann_off = Some(*o);
             if let Some(x) = chk_offset(*o) {
@@ -478,38 +530,54 @@ fn p_fdur(i: &[u8]) -> Res {
         }
     }
 }
+/// `FromStr for Span` is documented to pick the ISO 8601 parser when the text
+/// (after an optional sign) starts with `P`/`p` and the friendly parser
+/// otherwise; the two grammars are disjoint, so the trait implementation must
+/// accept exactly what one of the two parsers accepts, with an equal value.
 fn p_span_fromstr(i: &[u8]) -> Res {
     let Ok(s) = std::str::from_utf8(i) else { return Res::Err };
-    match s.parse::<Span>() {
-        Err(_) => Res::Err,
-        Ok(sp) => {
-            if let Some(x) = chk_span_range(&sp) {
-                return wrap(Some(x));
-            }
-            // Display is the ISO form, which folds sub-second units into
-            // seconds; only demand that it parses again.
-            let text = sp.to_string();
-            match text.parse::<Span>() {
-                Ok(_) => Res::Ok,
-                Err(e) => Res::Bad("ok-value-reparse-error:Span".into(), format!("{:?} printed {:?}: {}", sp, text, e)),
-            }
-        }
+    let a = s.parse::<Span>();
+    let b = match TSP.parse_span(i) {
+        Ok(x) => Ok(x),
+        Err(_) => FSP.parse_span(i),
+    };
+    match (&a, &b) {
+        (Err(_), Err(_)) => return Res::Err,
+        (Ok(x), Ok(y)) if x.fieldwise() == y.fieldwise() => {}
+        _ => return differs("temporal/friendly SpanParser::parse_span", &a, &b),
+    }
+    let sp = a.unwrap();
+    if let Some(x) = chk_span_range(&sp) {
+        return wrap(Some(x));
+    }
+    // Display is the ISO form, which folds sub-second units into
+    // seconds; only demand that it parses again.
+    let text = sp.to_string();
+    match text.parse::<Span>() {
+        Ok(_) => Res::Ok,
+        Err(e) => Res::Bad("ok-value-reparse-error:Span".into(), format!("{:?} printed {:?}: {}", sp, text, e)),
     }
 }
 fn p_sdur_fromstr(i: &[u8]) -> Res {
     let Ok(s) = std::str::from_utf8(i) else { return Res::Err };
-    match s.parse::<SignedDuration>() {
-        Err(_) => Res::Err,
-        Ok(d) => {
-            if let Some(x) = chk_sdur_range(d) {
-                return wrap(Some(x));
-            }
-            let text = d.to_string();
-            match text.parse::<SignedDuration>() {
-                Ok(b) if b == d => Res::Ok,
-                other => Res::Bad("ok-value-reparse:SignedDuration".into(), format!("{:?} printed {:?} re-parsed {:?}", d, text, other)),
-            }
-        }
+    let a = s.parse::<SignedDuration>();
+    let b = match TSP.parse_duration(i) {
+        Ok(x) => Ok(x),
+        Err(_) => FSP.parse_duration(i),
+    };
+    match (&a, &b) {
+        (Err(_), Err(_)) => return Res::Err,
+        (Ok(x), Ok(y)) if x == y => {}
+        _ => return differs("temporal/friendly SpanParser::parse_duration", &a, &b),
+    }
+    let d = a.unwrap();
+    if let Some(x) = chk_sdur_range(d) {
+        return wrap(Some(x));
+    }
+    let text = d.to_string();
+    match text.parse::<SignedDuration>() {
+        Ok(b) if b == d => Res::Ok,
+        other => Res::Bad("ok-value-reparse:SignedDuration".into(), format!("{:?} printed {:?} re-parsed {:?}", d, text, other)),
     }
 }
 /// Reference acceptor for the one place RFC 2822 input may contain a comment
@@ -539,46 +607,238 @@ fn rfc2822_comment_closed(i: &[u8]) -> bool {
 fn p_rfc2822_zoned(i: &[u8]) -> Res {
     match RP.parse_zoned(i) {
         Err(_) => Res::Err,
-        Ok(z) => {
-            if !rfc2822_comment_closed(i) {
-                return Res::Bad("ok-unclosed-comment:Zoned(rfc2822)".into(), format!("{:?} from input with an unclosed comment", z));
-            }
-            let ts = z.timestamp();
-            if Timestamp::from_nanosecond(ts.as_nanosecond()).ok() != Some(ts) {
-                return Res::Bad(format!("ok-value-denormalised:Zoned{}", f13_of(civil_ns(z.datetime()), ts.as_nanosecond())), format!("{:?}", z));
-            }
-            if let Some(x) = chk_datetime(z.datetime()).or_else(|| chk_offset(z.offset())) {
-                return wrap(Some(x));
-            }
-            match RPR.zoned_to_string(&z) {
-                // RFC 2822 cannot express every year / offset; an error is fine
-                Err(_) => Res::Ok,
-                Ok(text) => match RP.parse_zoned(&text) {
-                    Ok(b) if b.timestamp() == ts && b.offset() == z.offset() => Res::Ok,
-                    other => Res::Bad("ok-value-reparse:Zoned(rfc2822)".into(), format!("{:?} printed {:?} re-parsed {:?}", z, text, other)),
-                },
-            }
-        }
+        Ok(z) => chk_rfc2822_zoned(i, &z),
+    }
+}
+fn chk_rfc2822_zoned(i: &[u8], z: &Zoned) -> Res {
+    if !rfc2822_comment_closed(i) {
+        return Res::Bad("ok-unclosed-comment:Zoned(rfc2822)".into(), format!("{:?} from input with an unclosed comment", z));
+    }
+    let ts = z.timestamp();
+    if Timestamp::from_nanosecond(ts.as_nanosecond()).ok() != Some(ts) {
+        return Res::Bad(format!("ok-value-denormalised:Zoned{}", f13_of(civil_ns(z.datetime()), ts.as_nanosecond())), format!("{:?}", z));
+    }
+    if let Some(x) = chk_datetime(z.datetime()).or_else(|| chk_offset(z.offset())) {
+        return wrap(Some(x));
+    }
+    match RPR.zoned_to_string(z) {
+        // RFC 2822 cannot express every year / offset; an error is fine
+        Err(_) => Res::Ok,
+        Ok(text) => match RP.parse_zoned(&text) {
+            Ok(b) if b.timestamp() == ts && b.offset() == z.offset() => Res::Ok,
+            other => Res::Bad("ok-value-reparse:Zoned(rfc2822)".into(), format!("{:?} printed {:?} re-parsed {:?}", z, text, other)),
+        },
     }
 }
 fn p_rfc2822_timestamp(i: &[u8]) -> Res {
     match RP.parse_timestamp(i) {
         Err(_) => Res::Err,
-        Ok(ts) => {
-            if !rfc2822_comment_closed(i) {
-                return Res::Bad("ok-unclosed-comment:Timestamp(rfc2822)".into(), format!("{:?} from input with an unclosed comment", ts));
-            }
-            if Timestamp::from_nanosecond(ts.as_nanosecond()).ok() != Some(ts) || ts < Timestamp::MIN || ts > Timestamp::MAX {
-                return Res::Bad("ok-value-denormalised:Timestamp".into(), format!("second={} subsec={}", ts.as_second(), ts.subsec_nanosecond()));
-            }
-            match RPR.timestamp_to_string(&ts) {
-                Err(_) => Res::Ok,
-                Ok(text) => match RP.parse_timestamp(&text) {
-                    Ok(b) if b == ts => Res::Ok,
-                    other => Res::Bad("ok-value-reparse:Timestamp(rfc2822)".into(), format!("{:?} printed {:?} re-parsed {:?}", ts, text, other)),
-                },
+        Ok(ts) => chk_rfc2822_timestamp(i, ts),
+    }
+}
+fn chk_rfc2822_timestamp(i: &[u8], ts: Timestamp) -> Res {
+    if !rfc2822_comment_closed(i) {
+        return Res::Bad("ok-unclosed-comment:Timestamp(rfc2822)".into(), format!("{:?} from input with an unclosed comment", ts));
+    }
+    if Timestamp::from_nanosecond(ts.as_nanosecond()).ok() != Some(ts) || ts < Timestamp::MIN || ts > Timestamp::MAX {
+        return Res::Bad("ok-value-denormalised:Timestamp".into(), format!("second={} subsec={}", ts.as_second(), ts.subsec_nanosecond()));
+    }
+    match RPR.timestamp_to_string(&ts) {
+        Err(_) => Res::Ok,
+        Ok(text) => match RP.parse_timestamp(&text) {
+            Ok(b) if b == ts => Res::Ok,
+            other => Res::Bad("ok-value-reparse:Timestamp(rfc2822)".into(), format!("{:?} printed {:?} re-parsed {:?}", ts, text, other)),
+        },
+    }
+}
+
+// ---------------------------------------------------------------------------
+// FromStr of the datetime types: the documented behaviour is "the default
+// `DateTimeParser`", so the trait implementation must agree with it on every
+// input (same Ok/Err, equal value), and the value must be sane.
+// ---------------------------------------------------------------------------
+
+fn differs<T: std::fmt::Debug>(what: &str, a: &Result<T, jiff::Error>, b: &Result<T, jiff::Error>) -> Res {
+    let show = |r: &Result<T, jiff::Error>| match r {
+        Ok(v) => format!("Ok({:?})", v),
+        Err(e) => format!("Err({})", e),
+    };
+    Res::Bad(format!("differs-from-{}", what), format!("this entry point: {}; {}: {}", show(a), what, show(b)))
+}
+
+fn p_zoned_fromstr(i: &[u8]) -> Res {
+    let Ok(s) = std::str::from_utf8(i) else { return Res::Err };
+    let (a, b) = (s.parse::<Zoned>(), TP.parse_zoned(i));
+    match (&a, &b) {
+        (Err(_), Err(_)) => Res::Err,
+        (Ok(x), Ok(y)) if x == y && x.offset() == y.offset() => wrap(chk_zoned(x)),
+        _ => differs("DateTimeParser::parse_zoned", &a, &b),
+    }
+}
+fn p_timestamp_fromstr(i: &[u8]) -> Res {
+    let Ok(s) = std::str::from_utf8(i) else { return Res::Err };
+    let (a, b) = (s.parse::<Timestamp>(), TP.parse_timestamp(i));
+    match (&a, &b) {
+        (Err(_), Err(_)) => Res::Err,
+        (Ok(x), Ok(y)) if x == y => wrap(chk_timestamp(*x, i)),
+        _ => differs("DateTimeParser::parse_timestamp", &a, &b),
+    }
+}
+fn p_datetime_fromstr(i: &[u8]) -> Res {
+    let Ok(s) = std::str::from_utf8(i) else { return Res::Err };
+    let (a, b) = (s.parse::<DateTime>(), TP.parse_datetime(i));
+    match (&a, &b) {
+        (Err(_), Err(_)) => Res::Err,
+        (Ok(x), Ok(y)) if x == y => wrap(chk_datetime(*x)),
+        _ => differs("DateTimeParser::parse_datetime", &a, &b),
+    }
+}
+fn p_date_fromstr(i: &[u8]) -> Res {
+    let Ok(s) = std::str::from_utf8(i) else { return Res::Err };
+    let (a, b) = (s.parse::<Date>(), TP.parse_date(i));
+    match (&a, &b) {
+        (Err(_), Err(_)) => Res::Err,
+        (Ok(x), Ok(y)) if x == y => wrap(chk_date(*x)),
+        _ => differs("DateTimeParser::parse_date", &a, &b),
+    }
+}
+fn p_time_fromstr(i: &[u8]) -> Res {
+    let Ok(s) = std::str::from_utf8(i) else { return Res::Err };
+    let (a, b) = (s.parse::<Time>(), TP.parse_time(i));
+    match (&a, &b) {
+        (Err(_), Err(_)) => Res::Err,
+        (Ok(x), Ok(y)) if x == y => wrap(chk_time(*x)),
+        _ => differs("DateTimeParser::parse_time", &a, &b),
+    }
+}
+
+// ---------------------------------------------------------------------------
+// DateTimeParser options: every offset-conflict x disambiguation strategy
+// ---------------------------------------------------------------------------
+
+use jiff::tz::{Disambiguation as Dis, OffsetConflict as Oc};
+const OCS: [(Oc, &str); 4] = [(Oc::AlwaysOffset, "AlwaysOffset"), (Oc::AlwaysTimeZone, "AlwaysTimeZone"), (Oc::PreferOffset, "PreferOffset"), (Oc::Reject, "Reject")];
+const DISS: [(Dis, &str); 4] = [(Dis::Compatible, "Compatible"), (Dis::Earlier, "Earlier"), (Dis::Later, "Later"), (Dis::Reject, "Reject")];
+
+fn p_zoned_options(i: &[u8]) -> Res {
+    let mut v = vec![];
+    let mut any_ok = false;
+    for (oc, ocn) in OCS {
+        for (dis, disn) in DISS {
+            let p = temporal::DateTimeParser::new().offset_conflict(oc).disambiguation(dis);
+            if let Ok(z) = p.parse_zoned(i) {
+                any_ok = true;
+                if let Some((c, d)) = chk_zoned(&z) {
+                    v.push((format!("{}[offset_conflict={},disambiguation={}]", c, ocn, disn), d));
+                }
             }
         }
+    }
+    if !v.is_empty() {
+        Res::Many(v)
+    } else if any_ok {
+        Res::Ok
+    } else {
+        Res::Err
+    }
+}
+
+// ---------------------------------------------------------------------------
+// the `_with(db)` entry points: the bundled database and the empty one
+// ---------------------------------------------------------------------------
+
+fn bundled_db() -> &'static jiff::tz::TimeZoneDatabase {
+    static DB: std::sync::OnceLock<jiff::tz::TimeZoneDatabase> = std::sync::OnceLock::new();
+    DB.get_or_init(jiff::tz::TimeZoneDatabase::bundled)
+}
+static NO_DB: jiff::tz::TimeZoneDatabase = jiff::tz::TimeZoneDatabase::none();
+
+/// the sanity of a Zoned whose zone came from `db`: in range, normalised,
+/// prints, and the printed form parses back (with the same database) to the
+/// same instant, offset and zone name
+fn chk_zoned_with(db: &jiff::tz::TimeZoneDatabase, z: &Zoned) -> Option<(String, String)> {
+    let ts = z.timestamp();
+    if ts < Timestamp::MIN || ts > Timestamp::MAX || Timestamp::from_nanosecond(ts.as_nanosecond()).ok() != Some(ts) {
+        return bad("ok-value-out-of-range:Zoned", format!("timestamp second={} subsec_nanosecond={}", ts.as_second(), ts.subsec_nanosecond()));
+    }
+    if let Some(x) = chk_datetime(z.datetime()).or_else(|| chk_offset(z.offset())) {
+        return Some(x);
+    }
+    let tz = z.time_zone();
+    let fixed = tz.to_fixed_offset().ok();
+    if (tz.iana_name().is_none() && fixed.is_none()) || fixed.map(|o| o.seconds() % 60 != 0).unwrap_or(false) {
+        let _ = z.to_string();
+        return None;
+    }
+    let text = z.to_string();
+    match TP.parse_zoned_with(db, &text) {
+        Ok(b) if b.timestamp() == ts && b.offset() == z.offset() && b.time_zone().iana_name() == tz.iana_name() => None,
+        other => bad("ok-value-reparse:Zoned", format!("{:?} printed {:?} re-parsed {:?}", z, text, other.map_err(|e| e.to_string()))),
+    }
+}
+
+fn p_zoned_with(i: &[u8]) -> Res {
+    // the empty database: named zones cannot resolve; must not panic, and a
+    // fixed-offset result must still be sane
+    if let Ok(z) = TP.parse_zoned_with(&NO_DB, i) {
+        if let Some((c, d)) = chk_zoned_with(&NO_DB, &z) {
+            return Res::Bad(format!("{}[TimeZoneDatabase::none]", c), d);
+        }
+    }
+    match TP.parse_zoned_with(bundled_db(), i) {
+        Err(_) => Res::Err,
+        Ok(z) => wrap(chk_zoned_with(bundled_db(), &z)),
+    }
+}
+fn reparse_tz_bundled(s: &str) -> Result<TimeZone, jiff::Error> {
+    TP.parse_time_zone_with(bundled_db(), s)
+}
+fn p_time_zone_with(i: &[u8]) -> Res {
+    if let Ok(tz) = TP.parse_time_zone_with(&NO_DB, i) {
+        let v = battery::battery(&tz, &[], false);
+        if !v.is_empty() {
+            return Res::Many(v.into_iter().map(|(c, d)| (format!("{}[TimeZoneDatabase::none]", c), d)).collect());
+        }
+    }
+    match TP.parse_time_zone_with(bundled_db(), i) {
+        Err(_) => Res::Err,
+        Ok(tz) => chk_tz(&tz, reparse_tz_bundled),
+    }
+}
+
+// ---------------------------------------------------------------------------
+// RFC 2822: the free function and the relaxed-weekday parser
+// ---------------------------------------------------------------------------
+
+static RPX: rfc2822::DateTimeParser = rfc2822::DateTimeParser::new().relaxed_weekday(true);
+
+fn p_rfc2822_parse(i: &[u8]) -> Res {
+    let Ok(s) = std::str::from_utf8(i) else { return Res::Err };
+    let (a, b) = (rfc2822::parse(s), RP.parse_zoned(i));
+    match (&a, &b) {
+        (Err(_), Err(_)) => Res::Err,
+        (Ok(x), Ok(y)) if x == y && x.offset() == y.offset() => chk_rfc2822_zoned(i, x),
+        _ => differs("rfc2822::DateTimeParser::parse_zoned", &a, &b),
+    }
+}
+fn p_rfc2822_relaxed_zoned(i: &[u8]) -> Res {
+    let (a, b) = (RPX.parse_zoned(i), RP.parse_zoned(i));
+    match (&a, &b) {
+        (Err(_), Err(_)) => Res::Err,
+        // documented: the only difference is that a weekday that does not
+        // match the date is not an error
+        (Err(_), Ok(_)) => differs("strict parse_zoned (which accepted)", &a, &b),
+        (Ok(x), Ok(y)) if !(x == y && x.offset() == y.offset()) => differs("strict parse_zoned", &a, &b),
+        (Ok(x), _) => chk_rfc2822_zoned(i, x),
+    }
+}
+fn p_rfc2822_relaxed_timestamp(i: &[u8]) -> Res {
+    let (a, b) = (RPX.parse_timestamp(i), RP.parse_timestamp(i));
+    match (&a, &b) {
+        (Err(_), Err(_)) => Res::Err,
+        (Err(_), Ok(_)) => differs("strict parse_timestamp (which accepted)", &a, &b),
+        (Ok(x), Ok(y)) if x != y => differs("strict parse_timestamp", &a, &b),
+        (Ok(x), _) => chk_rfc2822_timestamp(i, *x),
     }
 }
 
@@ -636,6 +896,18 @@ const S_ZONED: &[&[u8]] = &[
     b"2024-06-15T07:00:00+05:45[Asia/Kathmandu]",
     b"+002024-06-15T07:00:00-04:00[America/New_York]",
     b"0000-01-01T00:00:00+00:00[UTC]",
+    b"2024-06-15T07:00:00-04:00[America/New_York][u-ca=iso8601][foo=bar-baz]",
+    b"2024-06-15T07:00:00-04:00[America/New_York][_a1-b=x1]",
+    b"2024-06-15T07:00:00+00[UTC]",
+    b"2024-06-15T07:00:00-00:00[UTC]",
+    b"2024-06-15T07:00:00.1-04:00[America/New_York]",
+    b"2024-03-10T02:30:00[America/New_York]",
+    b"2024-11-03T01:30:00[America/New_York]",
+    b"2024-06-15T07:00:00z[UTC]",
+    b"2024-06-15T03:00:00-08:00[!-08:00]",
+    b"2024-06-15T21:00:00+14:00[Etc/GMT-14]",
+    b"2024-06-15T16:30:00+05:30:00.4[+05:30]",
+    b"2024-06-15T07:00:00-03:59:59.5[America/New_York]",
 ];
 
 const S_TIMESTAMP: &[&[u8]] = &[
@@ -674,6 +946,14 @@ const S_TIMESTAMP: &[&[u8]] = &[
     b"2024-06-15T07:00:00Z[!UTC]",
     b"1970-01-01T00:00:00+00",
     b"1970-01-01T00Z",
+    b"2024-06-15T07:00:00.1Z",
+    b"2024-06-15T07:00:00.12345678Z",
+    b"2024-06-15T07:00:00Z[America/New_York][u-ca=iso8601][foo=bar-baz]",
+    b"2024-06-15T07:00:00+00:00[!-08:00]",
+    b"2024-06-15T07:00:60.5Z",
+    b"2024-06-15T07:00:00+05:30:15.5",
+    b"2024-06-15T07:00:00-25:59:58.999999999",
+    b"2024-06-15T07:00:00+05:30:15,499999999",
 ];
 
 const S_DATETIME: &[&[u8]] = &[
@@ -694,6 +974,10 @@ const S_DATETIME: &[&[u8]] = &[
     b"2024-06-15t07:00:00,5",
     b"2024-06-15T07:00:00[u-ca=iso8601]",
     b"1970-01-01T00:00",
+    b"2024-06-15T07:00:00[!UTC]",
+    b"2024-06-15T07:00:00+05:30:15[foo=bar]",
+    b"-000001-12-31T23:59:59",
+    b"2024-06-15T07:00:00+05:30:15.5",
 ];
 
 const S_DATE: &[&[u8]] = &[
@@ -710,6 +994,9 @@ const S_DATE: &[&[u8]] = &[
     b"1970-01-01",
     b"2000-02-29",
     b"2024-12-31T23:59:60",
+    b"2024-06-15[!America/New_York][foo=bar-baz]",
+    b"-000001-12-31",
+    b"2024-06-15 07",
 ];
 
 const S_TIME: &[&[u8]] = &[
@@ -729,6 +1016,13 @@ const S_TIME: &[&[u8]] = &[
     b"00:00",
     b"12:30:45.123",
     b"T12:30-04:00",
+    b"T07:00:00.5",
+    b"T0700",
+    b"07:00[u-ca=iso8601]",
+    b"T07[America/New_York]",
+    b"07:00:00+05:30:15",
+    b"0759",
+    b"2024-06-15 07:00:60",
 ];
 
 const S_PIECES: &[&[u8]] = &[
@@ -756,6 +1050,14 @@ const S_PIECES: &[&[u8]] = &[
     b"+002024-06-15T07:00:00z",
     b"2024-06-15T07:00:00+05[+05]",
     b"2024-06-15T07:00:00-00:00:29",
+    b"2024-06-15T07:00:00-04:00[!America/New_York][u-ca=iso8601][foo=bar-baz]",
+    b"2024-06-15T07:00:00Z[!+05:30]",
+    b"2024-06-15T07:00:00-00[_=0]",
+    b"2024-06-15T07:00:00,5+0530[A/B/C_d.e+f-1]",
+    b"2024-06-15T07:00:60.999999999-00:00:00",
+    b"2024-06-15T07:00:00+05:30:15.5",
+    b"2024-06-15T07:00:00-25:59:58.999999999",
+    b"2024-06-15T07:00:00+00:00:00.4[UTC]",
 ];
 
 const S_TZ: &[&[u8]] = &[
@@ -784,6 +1086,9 @@ const S_TZ: &[&[u8]] = &[
     b"NZST-12NZDT,M9.5.0,M4.1.0/3",
     b"Africa/Monrovia",
     b"Australia/Lord_Howe",
+    b"Etc/GMT-14",
+    b"+25:59",
+    b"-2559",
 ];
 
 const S_POSIX: &[&[u8]] = &[
@@ -810,6 +1115,8 @@ const S_POSIX: &[&[u8]] = &[
     b"<ABC+-123>5",
     b"EST5EDT5,M3.2.0,M11.1.0",
     b"EST5EDT6,M3.2.0,M11.1.0",
+    b"EST5EDT,M3.2.0/24,M11.1.0/0:00:00",
+    b"EST5EDT,J1/0,365/24",
 ];
 
 const S_TSPAN: &[&[u8]] = &[
@@ -847,6 +1154,19 @@ const S_TSPAN: &[&[u8]] = &[
     b"PT1H30M",
     b"P1DT0.5S",
     b"PT24H",
+    b"p1y2m3w4dt5h6m7s",
+    b"PT0,5H",
+    b"-P1W",
+    b"+PT1.123456789H",
+    b"P1Y1D",
+    b"PT1M1S",
+    b"PT1H1.5M",
+    b"PT175307617H",
+    b"PT10518456961M",
+    b"PT631107417601S",
+    b"PT175307616H10518456960M631107417600.999999999S",
+    b"PT175307616.999999999H",
+    b"P19998Y239976M1043497W7304484DT175307616H10518456960M631107417600S",
 ];
 
 const S_TDUR: &[&[u8]] = &[
@@ -874,6 +1194,14 @@ const S_TDUR: &[&[u8]] = &[
     b"PT24H",
     b"PT0.5S",
     b"PT1H30M",
+    b"PT0,5H",
+    b"-PT1.123456789H",
+    b"PT1M1S",
+    b"PT1H1.5M",
+    b"pt1h1m1,5s",
+    b"PT2562047788015215H30M7S",
+    b"PT2562047788015214.999999999H",
+    b"PT153722867280912929.999999999M",
 ];
 
 const S_FSPAN: &[&[u8]] = &[
@@ -919,6 +1247,77 @@ const S_FSPAN: &[&[u8]] = &[
     b"631107417600s",
     b"9223372036854775807ns",
     b"1s 2ms 3us 4ns",
+    b"2years",
+    b"2year",
+    b"2yrs",
+    b"2yr",
+    b"2y",
+    b"2months",
+    b"2month",
+    b"2mos",
+    b"2mo",
+    b"2weeks",
+    b"2week",
+    b"2wks",
+    b"2wk",
+    b"2w",
+    b"2days",
+    b"2day",
+    b"2d",
+    b"2hours",
+    b"2hour",
+    b"2hrs",
+    b"2hr",
+    b"2h",
+    b"2minutes",
+    b"2minute",
+    b"2mins",
+    b"2min",
+    b"2m",
+    b"2seconds",
+    b"2second",
+    b"2secs",
+    b"2sec",
+    b"2s",
+    b"2milliseconds",
+    b"2millisecond",
+    b"2millis",
+    b"2milli",
+    b"2msecs",
+    b"2msec",
+    b"2ms",
+    b"2microseconds",
+    b"2microsecond",
+    b"2micros",
+    b"2micro",
+    b"2usecs",
+    b"2usec",
+    b"2us",
+    b"2nanoseconds",
+    b"2nanosecond",
+    b"2nanos",
+    b"2nano",
+    b"2nsecs",
+    b"2nsec",
+    b"2ns",
+    b"2\xC2\xB5secs",
+    b"2\xC2\xB5sec",
+    b"2\xC2\xB5s",
+    b"1 yr 2 mos 3 wks 4 days 5 hrs 6 mins 7 secs 8 msecs 9 usecs 10 nsecs",
+    b"1y2mo3w4d5h6m7s8ms9us10ns",
+    b"175307617h",
+    b"10518456961m",
+    b"631107417601s",
+    b"631107417600001ms",
+    b"631107417600000001us",
+    b"175307616h 10518456960m 631107417600s 631107417600000ms 631107417600000000us 9223372036854775807ns",
+    b"19998y 239976mo 1043497w 7304484d 175307616:10518456960:631107417600.999999999",
+    b"175307616.999999999h",
+    b"0.999999999us",
+    b"1h\t2m\n3s\r4ms\x0C5us",
+    b"1 day, 05:06:07,5",
+    b"1s  ago",
+    b"1,5 s",
 ];
 
 const S_FDUR: &[&[u8]] = &[
@@ -948,6 +1347,55 @@ const S_FDUR: &[&[u8]] = &[
     b"-9223372036854775807s",
     b"1s 2ms 3us 4ns",
     b"2562047788015215:30:07.999999999",
+    b"2hours",
+    b"2hour",
+    b"2hrs",
+    b"2hr",
+    b"2h",
+    b"2minutes",
+    b"2minute",
+    b"2mins",
+    b"2min",
+    b"2m",
+    b"2seconds",
+    b"2second",
+    b"2secs",
+    b"2sec",
+    b"2s",
+    b"2milliseconds",
+    b"2millisecond",
+    b"2millis",
+    b"2milli",
+    b"2msecs",
+    b"2msec",
+    b"2ms",
+    b"2microseconds",
+    b"2microsecond",
+    b"2micros",
+    b"2micro",
+    b"2usecs",
+    b"2usec",
+    b"2us",
+    b"2nanoseconds",
+    b"2nanosecond",
+    b"2nanos",
+    b"2nano",
+    b"2nsecs",
+    b"2nsec",
+    b"2ns",
+    b"2\xC2\xB5secs",
+    b"2\xC2\xB5sec",
+    b"2\xC2\xB5s",
+    b"5 hrs 6 mins 7 secs 8 msecs 9 usecs 10 nsecs",
+    b"5h6m7s8ms9us10ns",
+    b"2562047788015215h 30m 7s 999ms 999us 999ns ago",
+    b"2562047788015214.999999999h",
+    b"9223372036854775807ms",
+    b"9223372036854775807us",
+    b"9223372036854775807ns",
+    b"0.999999999us",
+    b"1s  ago",
+    b"1,5 s",
 ];
 
 const S_2822: &[&[u8]] = &[
@@ -977,6 +1425,196 @@ const S_2822: &[&[u8]] = &[
     b"sat, 15 jun 2024 07:00:00 gmt",
     b"Sat, 15 Jun 124 07:00:00 +0000",
     b"Wed, 31 Dec 1969 19:00:00 -0500",
+    b"Mon, 1 Jan 2024 00:00 +0000",
+    b"Thu, 1 Feb 2024 00:00 +0000",
+    b"Fri, 1 Mar 2024 00:00 +0000",
+    b"Mon, 1 Apr 2024 00:00 +0000",
+    b"Wed, 1 May 2024 00:00 +0000",
+    b"Sat, 1 Jun 2024 00:00 +0000",
+    b"Mon, 1 Jul 2024 00:00 +0000",
+    b"Thu, 1 Aug 2024 00:00 +0000",
+    b"Sun, 1 Sep 2024 00:00 +0000",
+    b"Tue, 1 Oct 2024 00:00 +0000",
+    b"Fri, 1 Nov 2024 00:00 +0000",
+    b"Sun, 1 Dec 2024 00:00 +0000",
+    b"15 Jun 2024 07:00:00 EDT",
+    b"15 Jun 2024 07:00:00 CST",
+    b"15 Jun 2024 07:00:00 CDT",
+    b"15 Jun 2024 07:00:00 MST",
+    b"15 Jun 2024 07:00:00 MDT",
+    b"15 Jun 2024 07:00:00 PST",
+    b"15 Jun 2024 07:00:00 UTC",
+    b"15 Jun 2024 07:00:00 ABCDE",
+    b"15 Jun 2024 07:00:00 N",
+    b"15 Jun 2024 07:00:00 Y",
+    b"15 Jun 2024 07:00:00 I",
+    b"15 Jun 2024 07:00:00 K",
+    b"15 Jun 2024 07:00:00 M",
+    b"15 Jun 2024 07:00:00 b",
+    b"1 Jan 49 00:00:00 +0000",
+    b"1 Jan 50 00:00:00 +0000",
+    b"1 Jan 99 00:00:00 +0000",
+    b"1 Jan 00 00:00:00 +0000",
+    b"1 Jan 100 00:00:00 +0000",
+    b"1 Jan 999 00:00:00 +0000",
+    b"31 Dec 9999 23:59:00 +2559",
+    b"Sat,\t15 Jun 2024 07:00:00 -0400",
+    b"Sat,\r\n 15 Jun 2024\r\n 07:00:00 -0400\r\n",
+    b"Sat, 15 Jun 2024 07:00:00 -0400(EDT)",
+    b"Sat, 15 Jun 2024 07:00:00 -0400 (\\()  ",
+    b"Sat, 15 Jun 2024 07:00:00 -0400 (a\\)b(c)\\\\)",
+    b"Sat, 15 Jun 2024 07:00:00 GMT (()(()))",
+    b"SAT, 15 JUN 2024 07:00:00 edt",
+];
+
+// second alphabets (rows of level Light): the bytes of each grammar that the
+// first alphabet leaves out
+const A_DT2: &[u8] = b"05-:tz+,[]/=!u_a";
+const A_ISO2: &[u8] = b"05ptymdhsw.,-+ \x00";
+const A_FRI2: &[u8] = b"15wnuecriklt\xC2\xB5+\t";
+const A_2822B: &[u8] = b"05()\\\t \r\naZEDT+-\xFF";
+
+const S_2822X: &[&[u8]] = &[
+    b"Mon, 15 Jun 2024 07:00:00 -0400",
+    b"Sun, 1 Jan 1970 00:00:00 +0000",
+    b"fri, 31 Dec 9999 23:59:00 +2559 (x)",
+    b"Tue, 1 Jan 0000 00:00 Z",
+    b"Sat, 15 Jun 2024 07:00:00 -0400",
+    b"15 Jun 2024 07:00:00 -0400",
+    b"Wed, 15 Jun 24 07:00 EDT",
+    b"Thu, 29 Feb 2024 07:00:00 GMT (a (nested) comment)",
+];
+
+// anchored tails --------------------------------------------------------------
+// Tail lengths are (quick, thorough). Rows that share a lexer with a row
+// already enumerated at the longer length take the shorter one.
+const T_OFF: &[u8] = b"0159+-:.,Zz[]!/A\xFF";
+const T_OFF8: &[u8] = b"+-0145:Z";
+const T_NUM: &[u8] = b"0123569:.,+-Z[ \xFF";
+const T_ANN: &[u8] = b"UTC+-019:!/=u_.\xFF";
+const T_YEAR: &[u8] = b"0129+- \xFF";
+const L4: (usize, usize) = (4, 5);
+const L3: (usize, usize) = (3, 5);
+const L5: (usize, usize) = (5, 7);
+macro_rules! anchors {
+    ($($p:expr, $a:expr, $s:expr, $l:expr);* $(;)?) => { &[$(Anchor { prefix: $p, alpha: $a, suffix: $s, len: $l }),*] };
+}
+const AN_PIECES: &[Anchor] = anchors![
+    b"2024-06-15T07:00:00", T_OFF, b"", L4;
+    b"2024-06-15T07:00:00+05", T_NUM, b"", L4;
+    b"2024-06-15T07:00:00+05:30:", T_NUM, b"", L4;
+    b"2024-06-15T", T_NUM, b"", L4;
+    b"2024-06-15T07:00:", T_NUM, b"", L4;
+    b"2024-06-15T07:00:00Z[", T_ANN, b"]", L4;
+    b"2024-06-15T07:00:00Z[UTC][", T_ANN, b"]", L4;
+    b"2024-06-15T07:00:00Z[u-ca=", T_ANN, b"]", L4;
+    b"2024-", T_NUM, b"-15", L3;
+    b"", T_YEAR, b"-06-15", L5;
+    b"+00", T_YEAR, b"-06-15T07:00:00Z", L5;
+    b"-00", T_YEAR, b"0615", L5;
+];
+const AN_ZONED: &[Anchor] = anchors![
+    b"2024-06-15T07:00:00", T_OFF, b"[UTC]", L4;
+    b"2024-11-03T01:30:00", T_OFF, b"[America/New_York]", L4;
+    b"2024-06-15T07:00:00+00:00[", T_ANN, b"]", L4;
+    b"2024-06-15T07:00:00+00:00[UTC][", T_ANN, b"]", L4;
+    b"1919-03-01T00:00:00-00:44", T_NUM, b"[Africa/Monrovia]", L4;
+    b"-009999-01-02T01:59:59", T_OFF, b"[UTC]", L4;
+];
+const AN_ZONED_OPTIONS: &[Anchor] = anchors![
+    b"2024-11-03T01:30:00", T_OFF8, b"[America/New_York]", L4;
+    b"2024-03-10T02:30:00", T_OFF8, b"[America/New_York]", L4;
+];
+const AN_TIMESTAMP: &[Anchor] = anchors![
+    b"2024-06-15T07:00:00", T_OFF, b"", L3;
+    b"2024-06-15T07:00:00-25:59:", T_NUM, b"", L4;
+    b"-009999-01-02T01:59:59", T_OFF, b"", L4;
+    b"9999-12-30T22:00:00", T_OFF, b"", L4;
+    b"1969-12-31T23:59:59", T_OFF, b"", L4;
+];
+const AN_DATETIME: &[Anchor] = anchors![
+    b"2024-06-15T07:00:00", T_OFF, b"", L3;
+    b"2024-02-", T_NUM, b"", L3;
+];
+const AN_TIME: &[Anchor] = anchors![
+    b"07:00:00", T_OFF, b"", L4;
+    b"T07:00:", T_NUM, b"", L4;
+    b"07", T_NUM, b"", L4;
+    b"12", T_NUM, b"", L4;
+    b"T12", T_NUM, b"", L3;
+];
+const T_TZ: &[u8] = b"0123567+-:/.,MJ\xFF";
+const AN_POSIX: &[Anchor] = anchors![
+    b"EST", T_TZ, b"EDT,M3.2.0,M11.1.0", L4;
+    b"EST5EDT", T_TZ, b",M3.2.0,M11.1.0", L4;
+    b"EST5EDT,M3.2.0/", T_TZ, b",M11.1.0", L4;
+    b"EST5EDT,M3.2.0,M11.", T_TZ, b"", L4;
+    b"EST5EDT,J", T_TZ, b",J300/2", L4;
+    b"EST5EDT,", T_TZ, b",300", L3;
+    b"<", A_POSIX, b">5", L3;
+    b"EST5<", A_POSIX, b">,M3.2.0,M11.1.0", L3;
+];
+const AN_TZ: &[Anchor] = anchors![
+    b"EST", T_TZ, b"EDT,M3.2.0,M11.1.0", L3;
+    b"EST5EDT,M3.2.0/", T_TZ, b",M11.1.0", L3;
+    b"+05", T_NUM, b"", L4;
+];
+const AN_ISO: &[Anchor] = anchors![
+    b"P1Y", A_ISO, b"", L4;
+    b"PT1H", A_ISO, b"", L3;
+    b"PT", A_ISO, b"S", L4;
+    b"P", A_ISO, b"D", L3;
+    b"PT1.", A_ISO, b"", L4;
+    b"-P", A_ISO2, b"", L3;
+    b"PT175307616H", A_ISO, b"", L3;
+];
+const AN_ISO_DUR: &[Anchor] = anchors![
+    b"PT1H", A_ISO, b"", L4;
+    b"PT", A_ISO, b"S", L4;
+    b"PT1.", A_ISO, b"", L3;
+    b"-PT", A_ISO2, b"", L3;
+    b"PT2562047788015215H", A_ISO, b"", L3;
+];
+const AN_FRI: &[Anchor] = anchors![
+    b"1 ", A_FRI, b"", L4;
+    b"1y 2mo ", A_FRI, b"", L3;
+    b"1:", A_FRI, b"", L4;
+    b"1h", A_FRI, b" ago", L3;
+    b"1", A_FRI2, b"", L3;
+    b"1 m", A_FRI2, b"", L3;
+    b"1.5", A_FRI, b"", L4;
+    b"175307616h ", A_FRI, b"", L3;
+];
+const AN_FRI_DUR: &[Anchor] = anchors![
+    b"1 ", A_FRI, b"", L4;
+    b"1h 2m ", A_FRI, b"", L3;
+    b"1:", A_FRI, b"", L4;
+    b"1h", A_FRI, b" ago", L3;
+    b"1 m", A_FRI2, b"", L3;
+    b"1.5", A_FRI, b"", L3;
+    b"2562047788015215h ", A_FRI, b"", L3;
+];
+const T_2822Z: &[u8] = b"+-0159GMTUZJa()\\ \xFF";
+const T_CMT: &[u8] = b"()\\a \t\xFF0";
+const T_2822N: &[u8] = b"0123569: ,+-\tJn";
+const AN_2822: &[Anchor] = anchors![
+    b"Sat, 15 Jun 2024 07:00:00 ", T_2822Z, b"", L4;
+    b"Sat, 15 Jun 2024 07:00:00 -0400 (", T_CMT, b")", L5;
+    b"Sat, 15 Jun 2024 07:00:00 -0400 ", T_CMT, b"", L5;
+    b"15 Jun ", T_2822N, b" 07:00:00 -0400", L4;
+    b"15 Jun 2024 07:", T_2822N, b" -0400", L4;
+    b"15 Jun 2024 ", T_2822N, b":00 -0400", L3;
+    b"", T_2822N, b" Jun 2024 07:00:00 -0400", L4;
+    b"Sat, 15 Jun 2024 07:00:00 -", T_2822N, b"", L4;
+];
+const AN_2822_TS: &[Anchor] = anchors![
+    b"Sat, 15 Jun 2024 07:00:00 ", T_2822Z, b"", L3;
+    b"30 Dec 9999 22:00:00 ", T_2822Z, b"", L3;
+    b"1 Jan 0000 00:00 ", T_2822Z, b"", L3;
+];
+const AN_2822X: &[Anchor] = anchors![
+    b"Mon, 15 Jun ", T_2822N, b" 07:00:00 -0400", L3;
+    b"Mon, ", T_2822N, b" Jun 2024 07:00:00 -0400", L3;
 ];
 
 macro_rules! units {
@@ -994,6 +1632,14 @@ const U_DT: &[(&[u8], &[u8], &[u8])] = units![
     b"", b"-", b"";
     b"", b" ", b"";
     b"", b"\xFF", b"";
+    b"2024-06-15T07:00:00Z[UTC]", b"[a=b]", b"";
+    b"2024-06-15T07:00:00Z[a=", b"b-", b"c]";
+    b"2024-06-15T07:00:00Z[", b"a-", b"a=b]";
+    b"2024-06-15T07:00:00.", b"9", b"Z";
+    b"2024-06-15T07:00:00+00:00:00.", b"0", b"";
+    b"", b"0", b"2024-06-15T07:00:00Z";
+    b"+", b"0", b"2024-06-15T07:00:00Z";
+    b"2024-06-15T", b"0", b"7:00:00Z";
 ];
 const U_TZ: &[(&[u8], &[u8], &[u8])] = units![
     b"", b"A", b"";
@@ -1003,6 +1649,17 @@ const U_TZ: &[(&[u8], &[u8], &[u8])] = units![
     b"EST5EDT,M3.2.0/", b"1", b",M11.1.0";
     b"+", b"0", b"";
     b"", b"\xFF", b"";
+    b"AAAAAAAAAAAAAAAAAAAAAAAAAAAAAA5", b"B", b"";
+    b"AAAAAAAAAAAAAAAAAAAAAAAAAAAAAA5", b"B", b",M3.2.0,M11.1.0";
+    b"AAAAAAAAAAAAAAAAAAAAAAAAAAAAAA5<", b"B", b">,M3.2.0,M11.1.0";
+    b"<AAAAAAAAAAAAAAAAAAAAAAAAAAAAAA>5<", b"B", b">,M3.2.0,M11.1.0";
+    b"AAA5", b"B", b",M3.2.0,M11.1.0";
+    b"AAA", b"0", b"5";
+    b"AAA5BBB,M3.2.0/", b"0", b"1,M11.1.0";
+    b"AAA5BBB,J", b"0", b"1,J300";
+    b"AAA5BBB,M", b"0", b"3.2.0,M11.1.0";
+    b"AAA5:", b"0", b"";
+    b"AAA5:00:", b"0", b"";
 ];
 const U_ISO: &[(&[u8], &[u8], &[u8])] = units![
     b"P", b"1Y", b"";
@@ -1013,6 +1670,12 @@ const U_ISO: &[(&[u8], &[u8], &[u8])] = units![
     b"", b"P", b"";
     b"", b"-", b"";
     b"", b"\xFF", b"";
+    b"P", b"0", b"1Y";
+    b"P", b"0", b"1D";
+    b"PT", b"0", b"1H";
+    b"PT1.", b"0", b"1S";
+    b"PT1.", b"9", b"S";
+    b"PT0", b"0", b".5H";
 ];
 const U_FRI: &[(&[u8], &[u8], &[u8])] = units![
     b"", b"1h ", b"";
@@ -1024,6 +1687,16 @@ const U_FRI: &[(&[u8], &[u8], &[u8])] = units![
     b"", b"1:", b"1";
     b"", b"-", b"";
     b"", b"\xFF", b"";
+    b"", b"0", b"1y";
+    b"", b"0", b"1ns";
+    b"1.", b"9", b"h";
+    b"1.", b"0", b"1s";
+    b"1:", b"0", b"1:1";
+    b"1:1:", b"0", b"1";
+    b"1:1:1.", b"0", b"1";
+    b"1h", b" ", b"1m";
+    b"1h,", b" ", b"1m";
+    b"1h", b"\t", b"ago";
 ];
 const U_2822: &[(&[u8], &[u8], &[u8])] = units![
     b"", b" ", b"Sat, 15 Jun 2024 07:00:00 -0400";
@@ -1034,28 +1707,84 @@ const U_2822: &[(&[u8], &[u8], &[u8])] = units![
     b"Sat, 15 Jun 2024 07:00:00 -0400 (", b"\\", b")";
     b"Sat, 15 Jun ", b"0", b" 07:00:00 -0400";
     b"", b"\xFF", b"";
+    b"Sat, 15 Jun 2024 07:00:00 -0400 (", b"(", b"";
+    b"Sat, 15 Jun 2024 07:00:00 -0400 (", b"\\(", b")";
+    b"Sat, 15 Jun 2024 07:00:00 -0400 (", b"()", b")";
+    b"Sat, 15 Jun 2024 07:00:00 ", b"A", b"";
+    b"Sat, 15 Jun 2024 07:00:00 -0400", b" ", b"";
+    b"Sat,", b" ", b"15 Jun 2024 07:00:00 -0400";
+    b"Sat, 15 Jun 2024", b"\r\n ", b"07:00:00 -0400";
+    b"", b"0", b"5 Jun 2024 07:00:00 -0400";
 ];
 
+const NONE: &[Anchor] = &[];
+
+fn full(name: &'static str, alpha: &'static [u8], seeds: &'static [&'static [u8]], units: &'static [(&'static [u8], &'static [u8], &'static [u8])], f: fn(&[u8]) -> Res, short_len: (usize, usize), anchors: &'static [Anchor]) -> Parser {
+    Parser { name, alpha, seeds, units, f, level: Level::Full, short_len, anchors, calls: 2 }
+}
+fn light(name: &'static str, alpha: &'static [u8], seeds: &'static [&'static [u8]], units: &'static [(&'static [u8], &'static [u8], &'static [u8])], f: fn(&[u8]) -> Res, anchors: &'static [Anchor]) -> Parser {
+    let calls = if name.contains("{offset_conflict,disambiguation}") { 16 } else { 3 };
+    Parser { name, alpha, seeds, units, f, level: Level::Light, short_len: (0, 0), anchors, calls }
+}
+
 pub fn parsers() -> Vec<Parser> {
+    let mut v = all_parsers();
+    // development hook (never set by the driver): keep only the rows whose
+    // name contains the given text
+    if let Ok(f) = std::env::var("C17_ROWS") {
+        v.retain(|p| p.name.contains(&f));
+    }
+    v
+}
+
+fn all_parsers() -> Vec<Parser> {
+    // plain short strings: rows whose grammar needs >= 8 bytes before anything
+    // can be accepted (no string of length <= 6 is) get one byte less in the
+    // quick tier; what lies behind a valid prefix is enumerated by the
+    // anchored tails instead
+    const LONG: (usize, usize) = (4, 6);
+    const SHORT: (usize, usize) = (5, 6);
     vec![
-        Parser { name: "temporal::DateTimeParser::parse_zoned", alpha: A_DT, seeds: S_ZONED, units: U_DT, f: p_zoned },
-        Parser { name: "temporal::DateTimeParser::parse_timestamp", alpha: A_DT, seeds: S_TIMESTAMP, units: U_DT, f: p_timestamp },
-        Parser { name: "temporal::DateTimeParser::parse_datetime", alpha: A_DT, seeds: S_DATETIME, units: U_DT, f: p_datetime },
-        Parser { name: "temporal::DateTimeParser::parse_date", alpha: A_DT, seeds: S_DATE, units: U_DT, f: p_date },
-        Parser { name: "temporal::DateTimeParser::parse_time", alpha: A_DT, seeds: S_TIME, units: U_DT, f: p_time },
-        Parser { name: "temporal::DateTimeParser::parse_pieces", alpha: A_DT, seeds: S_PIECES, units: U_DT, f: p_pieces },
-        Parser { name: "temporal::DateTimeParser::parse_time_zone", alpha: A_TZ, seeds: S_TZ, units: U_TZ, f: p_time_zone },
-        Parser { name: "TimeZone::posix", alpha: A_POSIX, seeds: S_POSIX, units: U_TZ, f: p_posix },
-        Parser { name: "temporal::SpanParser::parse_span", alpha: A_ISO, seeds: S_TSPAN, units: U_ISO, f: p_tspan },
-        Parser { name: "temporal::SpanParser::parse_duration", alpha: A_ISO, seeds: S_TDUR, units: U_ISO, f: p_tdur },
-        Parser { name: "friendly::SpanParser::parse_span", alpha: A_FRI, seeds: S_FSPAN, units: U_FRI, f: p_fspan },
-        Parser { name: "friendly::SpanParser::parse_duration", alpha: A_FRI, seeds: S_FDUR, units: U_FRI, f: p_fdur },
-        Parser { name: "Span::from_str", alpha: A_ISO, seeds: S_TSPAN, units: U_ISO, f: p_span_fromstr },
-        Parser { name: "Span::from_str(friendly)", alpha: A_FRI, seeds: S_FSPAN, units: U_FRI, f: p_span_fromstr },
-        Parser { name: "SignedDuration::from_str", alpha: A_ISO, seeds: S_TDUR, units: U_ISO, f: p_sdur_fromstr },
-        Parser { name: "SignedDuration::from_str(friendly)", alpha: A_FRI, seeds: S_FDUR, units: U_FRI, f: p_sdur_fromstr },
-        Parser { name: "rfc2822::DateTimeParser::parse_zoned", alpha: A_2822, seeds: S_2822, units: U_2822, f: p_rfc2822_zoned },
-        Parser { name: "rfc2822::DateTimeParser::parse_timestamp", alpha: A_2822, seeds: S_2822, units: U_2822, f: p_rfc2822_timestamp },
+        full("temporal::DateTimeParser::parse_zoned", A_DT, S_ZONED, U_DT, p_zoned, LONG, AN_ZONED),
+        full("temporal::DateTimeParser::parse_timestamp", A_DT, S_TIMESTAMP, U_DT, p_timestamp, LONG, AN_TIMESTAMP),
+        full("temporal::DateTimeParser::parse_datetime", A_DT, S_DATETIME, U_DT, p_datetime, LONG, AN_DATETIME),
+        full("temporal::DateTimeParser::parse_date", A_DT, S_DATE, U_DT, p_date, LONG, AN_DATETIME),
+        full("temporal::DateTimeParser::parse_time", A_DT, S_TIME, U_DT, p_time, SHORT, AN_TIME),
+        full("temporal::DateTimeParser::parse_pieces", A_DT, S_PIECES, U_DT, p_pieces, LONG, AN_PIECES),
+        full("temporal::DateTimeParser::parse_time_zone", A_TZ, S_TZ, U_TZ, p_time_zone, SHORT, AN_TZ),
+        full("TimeZone::posix", A_POSIX, S_POSIX, U_TZ, p_posix, SHORT, AN_POSIX),
+        full("temporal::SpanParser::parse_span", A_ISO, S_TSPAN, U_ISO, p_tspan, SHORT, AN_ISO),
+        full("temporal::SpanParser::parse_duration", A_ISO, S_TDUR, U_ISO, p_tdur, SHORT, AN_ISO_DUR),
+        full("friendly::SpanParser::parse_span", A_FRI, S_FSPAN, U_FRI, p_fspan, SHORT, AN_FRI),
+        full("friendly::SpanParser::parse_duration", A_FRI, S_FDUR, U_FRI, p_fdur, SHORT, AN_FRI_DUR),
+        full("Span::from_str", A_ISO, S_TSPAN, U_ISO, p_span_fromstr, SHORT, NONE),
+        full("Span::from_str(friendly)", A_FRI, S_FSPAN, U_FRI, p_span_fromstr, SHORT, NONE),
+        full("SignedDuration::from_str", A_ISO, S_TDUR, U_ISO, p_sdur_fromstr, SHORT, NONE),
+        full("SignedDuration::from_str(friendly)", A_FRI, S_FDUR, U_FRI, p_sdur_fromstr, SHORT, NONE),
+        full("rfc2822::DateTimeParser::parse_zoned", A_2822, S_2822, U_2822, p_rfc2822_zoned, LONG, AN_2822),
+        full("rfc2822::DateTimeParser::parse_timestamp", A_2822, S_2822, U_2822, p_rfc2822_timestamp, LONG, AN_2822_TS),
+        // FromStr of the datetime types (thin wrappers: compared with the default parser)
+        light("Zoned::from_str", A_DT, S_ZONED, U_DT, p_zoned_fromstr, NONE),
+        light("Timestamp::from_str", A_DT, S_TIMESTAMP, U_DT, p_timestamp_fromstr, NONE),
+        light("civil::DateTime::from_str", A_DT, S_DATETIME, U_DT, p_datetime_fromstr, NONE),
+        light("civil::Date::from_str", A_DT, S_DATE, U_DT, p_date_fromstr, NONE),
+        light("civil::Time::from_str", A_DT, S_TIME, U_DT, p_time_fromstr, NONE),
+        // parser options and explicit databases
+        light("temporal::DateTimeParser::{offset_conflict,disambiguation}::parse_zoned", A_DT, S_ZONED, U_DT, p_zoned_options, AN_ZONED_OPTIONS),
+        light("temporal::DateTimeParser::parse_zoned_with", A_DT, S_ZONED, U_DT, p_zoned_with, NONE),
+        light("temporal::DateTimeParser::parse_time_zone_with", A_TZ, S_TZ, U_TZ, p_time_zone_with, NONE),
+        light("rfc2822::parse", A_2822, S_2822, U_2822, p_rfc2822_parse, NONE),
+        light("rfc2822::DateTimeParser::relaxed_weekday::parse_zoned", A_2822, S_2822X, U_2822, p_rfc2822_relaxed_zoned, AN_2822X),
+        light("rfc2822::DateTimeParser::relaxed_weekday::parse_timestamp", A_2822B, S_2822X, U_2822, p_rfc2822_relaxed_timestamp, AN_2822X),
+        // second alphabets
+        light("temporal::DateTimeParser::parse_pieces(alphabet 2)", A_DT2, S_PIECES, U_DT, p_pieces, NONE),
+        light("temporal::DateTimeParser::parse_zoned(alphabet 2)", A_DT2, S_ZONED, U_DT, p_zoned, NONE),
+        light("temporal::DateTimeParser::parse_time(alphabet 2)", A_DT2, S_TIME, U_DT, p_time, NONE),
+        light("temporal::SpanParser::parse_span(alphabet 2)", A_ISO2, S_TSPAN, U_ISO, p_tspan, NONE),
+        light("temporal::SpanParser::parse_duration(alphabet 2)", A_ISO2, S_TDUR, U_ISO, p_tdur, NONE),
+        light("friendly::SpanParser::parse_span(alphabet 2)", A_FRI2, S_FSPAN, U_FRI, p_fspan, NONE),
+        light("friendly::SpanParser::parse_duration(alphabet 2)", A_FRI2, S_FDUR, U_FRI, p_fdur, NONE),
+        light("rfc2822::DateTimeParser::parse_zoned(alphabet 2)", A_2822B, S_2822, U_2822, p_rfc2822_zoned, NONE),
     ]
 }
 
@@ -1066,6 +1795,10 @@ pub fn parsers() -> Vec<Parser> {
 pub fn panic_class(input: &[u8]) -> &'static str {
     if input.is_empty() {
         return "[empty-input]";
+    }
+    let c = posix_abbrev_class(input);
+    if !c.is_empty() {
+        return c;
     }
     let r = vf::guard(|| -> bool {
         let Ok(p) = temporal::Pieces::parse(input) else { return false };
@@ -1089,6 +1822,26 @@ pub fn panic_class(input: &[u8]) -> &'static str {
         Ok(true) => "[fraction!=0,instant-in-the-second-before-Timestamp::MIN]",
         _ => "",
     }
+}
+
+/// Input class of the POSIX abbreviation-length defect: the text holds an
+/// abbreviation-like run (ASCII letters, or `<` followed by letters, digits
+/// and signs) of more than 30 bytes that starts after byte 30.
+pub fn posix_abbrev_class(input: &[u8]) -> &'static str {
+    let mut i = 0;
+    while i < input.len() {
+        let quoted = input[i] == b'<';
+        let start = if quoted { i + 1 } else { i };
+        let mut j = start;
+        while j < input.len() && (input[j].is_ascii_alphabetic() || (quoted && (input[j].is_ascii_digit() || input[j] == b'+' || input[j] == b'-'))) {
+            j += 1;
+        }
+        if j - start > 30 && start > 30 {
+            return "[abbreviation>30-bytes-starting-after-byte-30]";
+        }
+        i = j.max(i + 1);
+    }
+    ""
 }
 
 pub fn escape(b: &[u8]) -> String {
